@@ -64,6 +64,31 @@ Definition enabled (s : st) (t : tid) : bool :=
   | Some _ => true
   end.
 
+(* lock state: owner, depth, version *)
+Definition lstate := (option tid * nat * nat)%type.
+
+(* the effect of thread t executing event e on the lock (o, d) and the version v;
+   None = blocked (only an Acq while ANOTHER thread owns the lock) *)
+Definition fire (o : option tid) (d v : nat) (t : tid) (e : ev) : option lstate :=
+  match e with
+  | EAcq =>
+      match o with
+      | None => Some (Some t, 1, v)
+      | Some u => if u =? t then Some (Some t, S d, v) else None
+      end
+  | ERel =>
+      if is_owner o t then
+        match d with
+        | S (S d') => Some (Some t, S d', v)
+        | _ => Some (None, 0, v)
+        end
+      else Some (o, d, v)
+           (* Python: RuntimeError "cannot release un-acquired lock"; the lock is
+              untouched.  Unreachable for bracketed programs (proved). *)
+  | ERead => Some (o, d, v)
+  | EWrite => Some (o, d, S v)
+  end.
+
 (* thread t executes event e (rest r), the lock becomes (o, d), the version v *)
 Definition adv (s : st) (t : tid) (e : ev) (r : prog) (o : option tid) (d v : nat) : st :=
   St o d (upd (progs s) t r) v (E t e (ver s) (owner s) (depth s) :: log s).
@@ -72,24 +97,9 @@ Definition step (t : tid) (s : st) : st :=
   match next s t with
   | None => s
   | Some (e, r) =>
-      match e with
-      | EAcq =>
-          match owner s with
-          | None => adv s t EAcq r (Some t) 1 (ver s)
-          | Some u => if u =? t then adv s t EAcq r (Some t) (S (depth s)) (ver s)
-                      else s                                  (* blocked *)
-          end
-      | ERel =>
-          if is_owner (owner s) t then
-            match depth s with
-            | S (S d) => adv s t ERel r (Some t) (S d) (ver s)
-            | _ => adv s t ERel r None 0 (ver s)
-            end
-          else adv s t ERel r (owner s) (depth s) (ver s)
-               (* Python: RuntimeError "cannot release un-acquired lock"; the lock is
-                  untouched.  Unreachable for bracketed programs (proved). *)
-      | ERead => adv s t ERead r (owner s) (depth s) (ver s)
-      | EWrite => adv s t EWrite r (owner s) (depth s) (S (ver s))
+      match fire (owner s) (depth s) (ver s) t e with
+      | None => s                                           (* blocked *)
+      | Some (o, d, v) => adv s t e r o d v
       end
   end.
 
@@ -114,25 +124,17 @@ Definition bracketed (p : prog) : bool := brk 0 p.
 
 Definition writes (p : prog) : bool := existsb (ev_eqb EWrite) p.
 
-(* all Reads/Writes of p lie in ONE outermost critical section
-   (state 0: none seen yet, 1: seen in the current outermost section, 2: that section is closed) *)
-Fixpoint one_sec (stt d : nat) (p : prog) : bool :=
+(* number of OUTERMOST critical sections of p (acquisitions at depth 0), started at depth d *)
+Fixpoint nsec (d : nat) (p : prog) : nat :=
   match p with
-  | [] => true
-  | EAcq :: r => one_sec stt (S d) r
-  | ERel :: r =>
-      match d with
-      | S (S d') => one_sec stt (S d') r
-      | _ => one_sec (match stt with 1 => 2 | x => x end) 0 r
-      end
-  | ERead :: r | EWrite :: r =>
-      match stt with
-      | 2 => false
-      | _ => (0 <? d) && one_sec 1 d r
-      end
+  | [] => 0
+  | EAcq :: r => (match d with 0 => 1 | S _ => 0 end) + nsec (S d) r
+  | ERel :: r => nsec (pred d) r
+  | ERead :: r | EWrite :: r => nsec d r
   end.
 
-Definition one_section (p : prog) : bool := one_sec 0 0 p.
+(* a snapshot: no Write, and everything in at most one outermost critical section *)
+Definition one_section (p : prog) : bool := nsec 0 p <=? 1.
 
 (* ---- properties of a log entry (used by the theorems) ------------------ *)
 (* outermost acquisition by t: the lock was free *)
@@ -141,3 +143,12 @@ Definition is_oacq (t : tid) (e : entry) : Prop :=
 (* outermost release by t: depth 1 -> 0 *)
 Definition is_orel (t : tid) (e : entry) : Prop :=
   e_tid e = t /\ e_ev e = ERel /\ e_depth e = 1.
+
+Definition is_oacqb (t : tid) (e : entry) : bool :=
+  (e_tid e =? t) && ev_eqb (e_ev e) EAcq && match e_owner e with None => true | Some _ => false end.
+
+(* the history in chronological order, and what thread t executed *)
+Definition hist (s : st) : list entry := rev (log s).
+Definition proj (t : tid) (l : list entry) : prog := map e_ev (filter (fun e => e_tid e =? t) l).
+Definition prog_of (s : st) (t : tid) : prog := nth t (progs s) [].
+Definition held (s : st) (t : tid) : nat := if is_owner (owner s) t then depth s else 0.
